@@ -11,25 +11,38 @@ import argparse, json, os, subprocess, sys, time
 V = os.path.dirname(os.path.dirname(os.path.abspath(__file__)))
 ap = argparse.ArgumentParser()
 ap.add_argument("seed"); ap.add_argument("--props"); ap.add_argument("--all", action="store_true"); ap.add_argument("--tier", default="quick")
+ap.add_argument("--in-repo", action="store_true", help="apply the patch to /repo itself (git apply ... git checkout -- .); default: a scratch copy of /repo's tracked sources via LCDB_REPO, safe while other jobs use /repo")
 a = ap.parse_args()
 sd = os.path.abspath(a.seed)
 meta = json.load(open(os.path.join(sd, "meta.json")))
 man = json.load(open(os.path.join(V, "MANIFEST.json")))
 claimed = [c["property_id"] for c in man["checks"]]
 props = a.props.split(",") if a.props else (claimed if a.all else [p for p in meta.get("properties", [meta.get("property")]) if p in claimed] or claimed)
-st = subprocess.run(["git", "-C", "/repo", "status", "--porcelain", "--untracked-files=no"], stdout=subprocess.PIPE, universal_newlines=True).stdout.strip()
-if st:
-    sys.exit("refusing: /repo has uncommitted changes:\n" + st)
-res = {"seed": os.path.basename(sd), "tier": a.tier, "ran": {}, "when": time.strftime("%Y-%m-%d %H:%M:%S")}
-subprocess.check_call(["git", "-C", "/repo", "apply", os.path.join(sd, "patch.diff")])
+import shutil, tempfile
+res = {"seed": os.path.basename(sd), "tier": a.tier, "ran": {}, "when": time.strftime("%Y-%m-%d %H:%M:%S"), "mode": "in-repo" if a.in_repo else "scratch-copy"}
+env = dict(os.environ)
+scratch = None
+if a.in_repo:
+    st = subprocess.run(["git", "-C", "/repo", "status", "--porcelain", "--untracked-files=no"], stdout=subprocess.PIPE, universal_newlines=True).stdout.strip()
+    if st:
+        sys.exit("refusing: /repo has uncommitted changes:\n" + st)
+    subprocess.check_call(["git", "-C", "/repo", "apply", os.path.join(sd, "patch.diff")])
+else:
+    scratch = tempfile.mkdtemp(prefix="lcdbseed-")
+    subprocess.check_call("git -C /repo archive HEAD src include | tar -x -C %s" % scratch, shell=True)
+    subprocess.check_call(["patch", "-p1", "-s", "-d", scratch, "-i", os.path.join(sd, "patch.diff")])
+    env["LCDB_REPO"] = scratch
 try:
     for p in props:
-        r = subprocess.run([os.path.join(V, "check"), p, "--tier", a.tier], cwd=V, stdout=subprocess.PIPE, universal_newlines=True)
+        r = subprocess.run([os.path.join(V, "check"), p, "--tier", a.tier], cwd=V, stdout=subprocess.PIPE, universal_newlines=True, env=env)
         lines = [l for l in r.stdout.splitlines() if l.startswith(("VIOLATION", "INCONCLUSIVE", "KNOWN-FINDING"))]
         res["ran"][p] = {"exit": r.returncode, "lines": [l[:400] for l in lines][:12]}
         print("%s exit=%d %s" % (p, r.returncode, (lines[0][:200] if lines else "")))
 finally:
-    subprocess.check_call(["git", "-C", "/repo", "checkout", "--", "."])
+    if a.in_repo:
+        subprocess.check_call(["git", "-C", "/repo", "checkout", "--", "."])
+    else:
+        shutil.rmtree(scratch, ignore_errors=True)
 res["caught_by"] = [p for p, v in res["ran"].items() if v["exit"] == 1]
 json.dump(res, open(os.path.join(sd, "result.json"), "w"), indent=1)
 print("CAUGHT by", res["caught_by"] if res["caught_by"] else "NOTHING")
